@@ -18,29 +18,36 @@ func init() {
 	addProperty(&Property{
 		ID:         "C01",
 		Title:      "Parse then print preserves the meaning of every accepted module",
-		Decided:    "over every construct of the translator and printers: each grammar alternative is dispatched or rejected with an error, never a panic or silent skip (EXH, SIB); scaffold and fill translators agree on the IR type per AST node (PAIR); every syntax accessor of every handled AST node is read and used (ACC) and lands in the like-named IR field (FLOW); every IR field the parser allocates is filled (FLD-W) and every IR field is read by its printer (FLD-P), in grammar order (ORD), under the right opcode keyword (OPC).",
+		Decided:    "over every construct of the translator and printers: each grammar alternative is dispatched or rejected with an error, never a panic or silent skip (EXH, SIB); scaffold and fill translators agree on the IR type per AST node (PAIR); every syntax accessor of every handled AST node is read and used (ACC) and lands in the like-named IR field (FLOW); every IR field the parser allocates is filled (FLD-W) and every IR field is read by its printer (FLD-P), in grammar order (ORD), under the right opcode keyword (OPC); errors of the translator's own functions are returned, never dropped or turned into panics (ERR), and never accompanied by a module (NILMOD).",
 		NotDecided: "that the printed text means the same to LLVM at the level of values (literal formatting is C09/C10/C11); crashes guarded by data conditions (e.g. `i1 -1`); the alias-typedef defect F2 (found by reading, no rule).",
 		Rules:      []RuleUse{{Rule: "EXH"}, {Rule: "SIB"}, {Rule: "PAIR"}, {Rule: "ACC"}, {Rule: "FLOW"}, {Rule: "FLD-W"}, {Rule: "FLD-P"}, {Rule: "ORD"}, {Rule: "OPC"}},
 	})
 	addProperty(&Property{
-		ID:    "C03",
-		Title: "IR built through the constructors prints to valid, faithful LLVM assembly",
-		Decided: "every constructor parameter is stored, same-typed parameters in the like-named field (CTOR-1); lazily cached result types are computed in the constructor (CTOR-2); every builder method forwards its parameters in order to the like-named constructor, stores the result once, sets Parent and returns it (CTOR-3); every field is read by its printer (FLD-P) in grammar order (ORD) under the right opcode (OPC).",
+		ID:         "C03",
+		Title:      "IR built through the constructors prints to valid, faithful LLVM assembly",
+		Decided:    "every constructor parameter is stored, same-typed parameters in the like-named field (CTOR-1); lazily cached result types are computed in the constructor (CTOR-2); every builder method forwards its parameters in order to the like-named constructor, stores the result once, sets Parent and returns it (CTOR-3); every field is read by its printer (FLD-P) in grammar order (ORD) under the right opcode (OPC).",
 		NotDecided: "acceptance of the text by LLVM, execution results, structural identity after re-parsing, and that a constructor's own type check never rejects a well-typed operand (the panicking checks in New* are not classified).",
-		Rules: []RuleUse{{Rule: "CTOR-1"}, {Rule: "CTOR-2"}, {Rule: "CTOR-3"}, {Rule: "FLD-P"}, {Rule: "ORD"}, {Rule: "OPC"}},
+		Rules:      []RuleUse{{Rule: "CTOR-1"}, {Rule: "CTOR-2"}, {Rule: "CTOR-3"}, {Rule: "FLD-P"}, {Rule: "ORD"}, {Rule: "OPC"}},
 	})
 	addProperty(&Property{
-		ID:    "C15",
-		Title: "Operand and successor views are complete and live",
-		Decided: "every value.Value slot reachable from an instruction or terminator (through operand-carrier structs and slices) has its address returned by Operands() (OPS-1); every returned element is the address of a slot rooted at the pointer receiver (OPS-2); Succs() reads every constructor-filled target field in order (OPS-3).",
+		ID:         "C15",
+		Title:      "Operand and successor views are complete and live",
+		Decided:    "every value.Value slot reachable from an instruction or terminator (through operand-carrier structs and slices) has its address returned by Operands() (OPS-1); every returned element is the address of a slot rooted at the pointer receiver (OPS-2); Succs() reads every constructor-filled target field in order (OPS-3).",
 		NotDecided: "that a replacement through *ir.Arg-wrapped argument slots is found by a client comparing *slot == old; that all successors are blocks of the same function for constructed IR.",
-		Rules: []RuleUse{{Rule: "OPS-1"}, {Rule: "OPS-2"}, {Rule: "OPS-3"}},
+		Rules:      []RuleUse{{Rule: "OPS-1"}, {Rule: "OPS-2"}, {Rule: "OPS-3"}},
 	})
 	addProperty(&Property{
-		ID:    "C16",
-		Title: "Type equality is a structural equivalence matching LLVM type identity",
-		Decided: "each kind's Equal reads every identity field on both sides (EQ-1), guards on the argument's kind and returns false otherwise (EQ-2, necessary for symmetry), and the struct kind cuts recursion at type names before descending into fields (EQ-3, necessary for termination); every field of every type kind is printed (FLD-P on ir/types) and read back (ACC/FLOW on the type translators), which equality through print/parse relies on.",
+		ID:         "C16",
+		Title:      "Type equality is a structural equivalence matching LLVM type identity",
+		Decided:    "each kind's Equal reads every identity field on both sides (EQ-1), guards on the argument's kind and returns false otherwise (EQ-2, necessary for symmetry), and the struct kind cuts recursion at type names before descending into fields (EQ-3, necessary for termination); every field of every type kind is printed (FLD-P on ir/types) and read back (ACC/FLOW on the type translators), which equality through print/parse relies on.",
 		NotDecided: "transitivity as such; that the pointer kind's comparison of printed forms coincides with structure for all element types; preservation by print/parse beyond field coverage.",
-		Rules: []RuleUse{{Rule: "EQ-1"}, {Rule: "EQ-2"}, {Rule: "EQ-3"}, {Rule: "FLD-P", Filter: tag("types"), Floor: 15}, {Rule: "FLOW", Filter: tag("types"), Floor: 10}},
+		Rules:      []RuleUse{{Rule: "EQ-1"}, {Rule: "EQ-2"}, {Rule: "EQ-3"}, {Rule: "FLD-P", Filter: tag("types"), Floor: 15}, {Rule: "FLOW", Filter: tag("types"), Floor: 10}},
+	})
+	addProperty(&Property{
+		ID:    "C05",
+		Title: "Undefined or doubly defined names are reported as errors",
+		Decided: "no unchecked lookup in an index of definitions (LK-1); every lookup of a decoded identifier returns an error on a miss and the found object on a hit (LK-2); every insertion into an index is guarded by a duplicate test that always errors (DUP); errors of translator functions are propagated, never panicked or dropped (ERR); an error never comes with a module (NILMOD).",
+		NotDecided: "reference sites that never reach a lookup at all (e.g. names only used by constructs the IR does not model); blockaddress placeholders (covered under C04 by TODO).",
+		Rules: []RuleUse{{Rule: "LK-1"}, {Rule: "LK-2"}, {Rule: "DUP"}, {Rule: "ERR"}, {Rule: "NILMOD"}},
 	})
 }
